@@ -297,7 +297,7 @@ def _model_values(s, itf):
     return vals
 
 
-def solve(constraints, timeout_ms=10000, goal=(), small_first=False):
+def solve(constraints, timeout_ms=10000, goal=(), small_first=False, quick=False, hint_vars=None):
     """('unsat', None) | ('sat', {name: int value of each original bit-vector constant}) | ('unknown', reason).
     Non-linear integer solving is sensitive to the shape of the query: the whole query is tried first and, when a goal is
     given, the goal-directed slice second."""
@@ -306,21 +306,25 @@ def solve(constraints, timeout_ms=10000, goal=(), small_first=False):
     except NotInFragment as e:
         return 'unknown', 'not in the integer fragment: %s' % e, None
     attempts = [(full, itf, True)]
+    candidate = None
     if goal:
         sliced, itf_s = translate(constraints, goal)
         attempts.append((sliced, itf_s, False))
     why = ''
     for cs, itf_k, is_full in attempts:
         s = z3.Solver()
-        s.set('timeout', int(timeout_ms // (len(attempts) + 1)))
+        s.set('timeout', int(timeout_ms if quick else timeout_ms // (len(attempts) + 1)))
         s.add(cs)
         r = s.check()
         if r == z3.unsat:
             return 'unsat', None, itf_k
         if r == z3.sat and is_full:
             return 'sat', _model_values(s, itf_k), itf_k
+        if r == z3.sat and not is_full:
+            # a model of the slice (assumptions dropped) is only a candidate: the caller may try it against the real code
+            candidate = _model_values(s, itf_k)
         why = s.reason_unknown() if r == z3.unknown else 'the sliced query is satisfiable, the full one undecided'
-        if r == z3.unknown:
+        if r == z3.unknown and not quick:
             # a second opinion on the same pure-integer query (only an `unsat` is used)
             r2 = _cvc5_unsat(s, timeout_ms / 1000.0 / (len(attempts) + 1))
             if r2:
@@ -337,6 +341,23 @@ def solve(constraints, timeout_ms=10000, goal=(), small_first=False):
                     s0.add(v <= bound)
             if s0.check() == z3.sat:
                 return 'sat', _model_values(s0, itf), itf
+    if small_first:
+        # corner search: every wide variable at one of two extremes (a witness of an overflow usually sits there)
+        import itertools
+        wide = [(name, orig, v) for name, (orig, v) in itf.vars.items() if orig.size() >= 64 and (hint_vars is None or name in hint_vars)]
+        if 0 < len(wide) <= 8:
+            for hi in (1 << 126, 1 << 120):
+                for combo in itertools.product((0, 1), repeat=len(wide)):
+                    s0 = z3.Solver()
+                    s0.set('timeout', 2000)
+                    s0.add(full)
+                    for (name, orig, v), bit in zip(wide, combo):
+                        top = hi if orig.size() >= 128 else 1_000_000
+                        s0.add(v == (top if bit else 1))
+                    if s0.check() == z3.sat:
+                        return 'sat', _model_values(s0, itf), itf
+    if candidate is not None:
+        return 'candidate', candidate, itf
     return 'unknown', why, itf
 
 
